@@ -2417,6 +2417,88 @@ def check_copy(scn_name, how, seed):
     return {"backend": "concrete", "cases": n, "trivial": n == 0, "statement": "%s of %s: %d observables of the copy follow an update of its %d base parameters" % (how, scn_name, n, n_assigned)}
 
 
+def _same_up_to_sample_broadcast(a, b):
+    """a value that does not depend on the sample (a constant kept with fewer leading dimensions) is the same value for every sample"""
+    if isinstance(a, torch.Tensor) and isinstance(b, torch.Tensor) and a.dim() <= b.dim():
+        try:
+            return bool(torch.allclose(a.expand(b.shape), b, rtol=ATOL, atol=ATOL, equal_nan=True))
+        except RuntimeError:
+            return False
+    return False
+
+
+def check_shape_change(scn_name, seed):
+    """what `Distribution.sample([S])` does to a live graph: every base parameter receives a value with a leading sample dimension, then one
+    with another S, then an unbatched value again. After each stage the SHAPE information of every object (`shape`, `sample_shape`, read
+    first - models ask for it before they ask for values) and every observable equal those of a graph built afresh from the same values; an
+    evaluation that raises on the live graph while the fresh graph evaluates is stale state as well."""
+    s = build(scn_name)
+    for lab in list(s.evals):
+        _evaluate(s, lab)
+    rng = random.Random("%s/shape/%d" % (scn_name, seed))
+    n, problems = 0, []
+    assignable = [nme for nme in s.params if s.domains.get(nme) not in (None, "fixed")]
+    if not assignable:
+        return {"backend": "concrete", "trivial": True, "statement": "scenario %s has no assignable base parameter" % scn_name}
+    base = {nme: s.params[nme].tensor.detach().clone() for nme in assignable}
+    for stage, S in enumerate((3, 5, None)):
+        for nme in assignable:
+            dom = s.domains[nme]
+            if S is None:
+                new = _perturb(base[nme], dom, rng)
+            else:
+                new = torch.stack([_perturb(base[nme], dom, rng) for _ in range(S)])
+            s.params[nme].tensor = new
+        try:
+            fresh = build(scn_name, s.state())
+        except Exception:
+            continue                                   # this scenario cannot be built with such values: nothing to compare with
+        objs, fobjs = s.all_objects(), fresh.all_objects()
+        for oname, o in objs.items():                  # shape information first
+            for attr in ("shape", "sample_shape"):
+                try:
+                    b = getattr(fobjs[oname], attr)
+                except Exception:
+                    continue
+                if not isinstance(b, torch.Size):
+                    continue
+                try:
+                    a = getattr(o, attr)
+                    a = tuple(a) if isinstance(a, torch.Size) else repr(a)
+                except Exception as e:
+                    a = "raises %s" % type(e).__name__
+                b = tuple(b)
+                n += 1
+                if a != b:
+                    problems.append({"stage": "S=%s" % S, "what": "%s.%s" % (oname, attr), "live": str(a), "fresh": str(b)})
+        for lab in s.evals:
+            b = _evaluate(fresh, lab)
+            if b[0] == "exc":
+                continue
+            a = _evaluate(s, lab)
+            n += 1
+            if a[0] == "exc":
+                problems.append({"stage": "S=%s" % S, "what": lab, "live": a[1], "fresh": _fmt(b[1])})
+            elif not heap.same_value(a[1], b[1], ATOL, ATOL) and not _same_up_to_sample_broadcast(a[1], b[1]):
+                problems.append({"stage": "S=%s" % S, "what": lab, "live": _fmt(a[1]), "fresh": _fmt(b[1])})
+        if problems:
+            break
+    if problems:
+        raise Refuted("scenario %s after its base parameters received values of another sample shape: %d observable(s) differ from a freshly built graph, e.g. %s"
+                      % (scn_name, len(problems), problems[0]), witness={"scenario": scn_name, "problems": problems[:4]},
+                      replay={"kind": "custom", "contract": "C11", "func": "replay_shape_change", "args": {"scenario": scn_name, "seed": seed}}, confirmed=True)
+    return {"backend": "concrete", "cases": n, "trivial": n == 0,
+            "statement": "%s: %d observables (shape information first) follow updates that change the sample shape ([3], [5], unbatched)" % (scn_name, n)}
+
+
+def replay_shape_change(args):
+    try:
+        check_shape_change(args["scenario"], int(args.get("seed", 0)))
+    except Refuted as e:
+        return False, e.detail
+    return True, "held"
+
+
 def replay_copy(args):
     try:
         check_copy(args["scenario"], args["how"], args.get("seed", 0))
@@ -2939,6 +3021,11 @@ def obligations(tier, seed):
             continue
         for how in ("deepcopy", "pickle"):
             add("C11.copy[%s,%s]" % (sn, how), (lambda sn=sn, how=how: check_copy(sn, how, seed)), "the observer wiring survives a copy of the object graph (bounded)", tag="B", timeout=600)
+
+    for sn in SCENARIOS:
+        if sn.startswith("twin."):
+            continue
+        add("C11.shape_change[%s]" % sn, (lambda sn=sn: check_shape_change(sn, seed)), "cached shape information follows an update that changes the sample shape (bounded)", tag="B", timeout=600)
 
     # ---- vacuity --------------------------------------------------------------------------------------
     add("C11.vacuity.handlers", vacuity_handlers, "guard: must-fail twins of (b) and dyn")
